@@ -149,6 +149,12 @@ def h_export(kl: int, kt: int, has_a: bool, has_b: bool, with_ext: bool, has_c: 
     db1 = rt.DB()
     rt.stub_normalizer()
     A.BATCH_SIZE = 2
+    if with_ext:
+        # the lexicon that L declares as a dependency is installed, with a url of its own: the
+        # export must keep the url (or its absence) that L's <Requires> declared
+        prov = docs.lexicon_small(docs.P(), 'R', ver='9', tag='r', ili='i8')
+        prov['url'] = 'http://provider.example/own'
+        rt.quiet_add(docs.resource([prov], '1.1'))
     rt.quiet_add(docs.resource([doc], '1.1' if style == '1.1' else '1.0'))
     if with_ext:
         # an installed extension that also relates two base synsets must not leak into the export
